@@ -11,13 +11,13 @@ HERE = os.path.dirname(os.path.dirname(os.path.abspath(__file__)))
 CHECKS = {
     "C01": ("DESIGN.md section 4 / C01",
             "property-based differential testing against a reference model (M-dewey), correlated pair generator, shrinking; thorough tier adds a coverage-guided libFuzzer campaign on the same oracle",
-            "Generated-input search: every generated version pair is judged for all four operators, both directions, through Pattern, Dewey and best_match against an independent model of pkg_install's dewey rule. Exploration of a bounded token grammar (<= 12 tokens, <= 18-digit runs); absence of defects is not established.",
+            "Generated-input search: every generated version pair is judged for all four operators, both directions, through Pattern, Dewey and best_match against an independent model of pkg_install's dewey rule. Every pair is also asked through the four range patterns with the same bound on both sides. Exploration of a token grammar (usually <= 12 tokens, numbers up to i64::MAX, occasionally a shared prefix of up to 1300 components; tokens also from real pkgsrc versions and from the library's own literals); absence of defects is not established.",
             "Trusts the reference model M-dewey (written from the property statement, self-checked at start) and proptest's generators; known finding KF-1 region is judged leniently and counted.",
             "pbt"),
     "C02": ("DESIGN.md section 4 / C02",
             "property-based differential testing against reference model M-dewey-pattern, random stream plus complete enumeration of a finite product space",
-            "Generated-input search: (pattern, name) pairs over bases x 0-3 operators x bounds x base relations x versions are compiled and matched through Dewey and Pattern and compared with an independent compile/match model; the product space is also enumerated completely (quick: reduced pools, thorough: full pools).",
-            "Trusts M-dewey-pattern / M-dewey (self-checked); versions and bounds are letter-free so KF-1 cannot interfere.",
+            "Generated-input search: (pattern, name) pairs over bases x 0-3 operators x bounds x base relations x versions are compiled and matched through Dewey and Pattern and compared with an independent compile/match model; the product space is also enumerated completely (quick: reduced pools, thorough: full pools); a free-form stream takes bases from the library's own literals and bounds / versions from the free version-token generator (same bound twice, a bound edited into the version, very long bounds, the pattern's own text as the candidate).",
+            "Trusts M-dewey-pattern / M-dewey (self-checked); pool versions and bounds are letter-free so KF-1 cannot interfere, the free-form and realistic streams judge the KF-1 region leniently as C01 does.",
             "pbt"),
     "C03": ("DESIGN.md section 4 / C03",
             "property-based testing of algebraic laws (total preorder, operator duality/converse, two-bound conjunction) on correlated triples, shrinking; thorough tier adds a coverage-guided libFuzzer campaign on the same oracle",
@@ -31,8 +31,8 @@ CHECKS = {
             "pbt"),
     "C05": ("DESIGN.md section 4 / C05",
             "grammar-based property testing against an own shell-glob matcher (M-glob) and the identical-string rule, instance + mutation name generator",
-            "Generated-input search: glob/plain patterns of the pkgsrc subset against instances and one-step mutations concentrated on the first two characters (where the fast-reject looks), short and empty names; malformed globs must be rejected.",
-            "Trusts M-glob (self-checked); names with leading '.' or '/', '**' and exotic set members are outside the generated subset.",
+            "Generated-input search: glob/plain patterns of the pkgsrc subset against instances and one-step mutations concentrated on the first two characters (where the fast-reject looks), short and empty names; set members include ^ ! ] [ \\ * ?, a stream holds the syntax of other glob dialects (POSIX classes, '^' negation, backslash escapes), words of the library's own literals appear as glob literals and name affixes; malformed globs must be rejected.",
+            "Trusts M-glob (self-checked; a ']' directly after '[' or '[!' is a set member as in every shell); names with leading '.' or '/' and '**' are outside the generated subset.",
             "pbt"),
     "C06": ("DESIGN.md section 4 / C06",
             "property-based model comparison (M-dewey winner) plus metamorphic relations over permutations and association trees of pairwise reduction",
@@ -46,37 +46,37 @@ CHECKS = {
             "pbt"),
     "C08": ("DESIGN.md section 4 / C08",
             "property-based differential testing with fault injection against M-summary.parse; enumeration of all single and double removals of required variables and of all 2^11 API subsets",
-            "Generated-input search with injected faults: acceptance must coincide with the model and the reported error must be a cause actually present (exact when there is one cause); is_completed() is enumerated over every subset of the required variables.",
+            "Generated-input search with injected faults: acceptance must coincide with the model and the reported error must be a cause actually present (exact when there is one cause); is_completed() is enumerated over every subset of the required variables, and every name at edit distance one from a supported variable name (12 212 names) is enumerated as an extra line of a complete entry.",
             "Trusts M-summary.parse/causes (self-checked); with several simultaneous causes any one is accepted.",
             "pbt"),
     "C09": ("DESIGN.md section 4 / C09",
             "property-based metamorphic testing over chunk partitions (enumerated single cuts, pairs, fixed sizes, random) with fault injection of one malformed entry; thorough tier adds a coverage-guided libFuzzer campaign on the same oracle",
-            "Generated-input search over (stream, partition): every enumerated partition of each short stream (single cuts, all pairs of cuts up to 240 bytes, fixed chunk sizes, random partitions) and one generated partition of each long stream (20-70 entries, chunk sizes up to 8192) must give the same entries as the one-call write and the model; for a malformed entry the failing write, its error kind and the entries collected so far are checked for every partition.",
+            "Generated-input search over (stream, partition): every enumerated partition of each short stream (single cuts, all pairs of cuts up to 240 bytes, fixed chunk sizes, random partitions, zero-length writes at line ends) and one generated partition of each long stream (20-70 entries, chunk sizes up to 8192) must give the same entries as the one-call write and the model; for a malformed entry the failing write, its error kind and the entries collected so far are checked for every partition.",
             "Trusts M-summary for the expected entries; doubled blank lines (empty entries) are outside the generated domain.",
             "pbt"),
     "C10": ("DESIGN.md section 4 / C10",
             "property-based round-trip testing (parse->write identity on canonical files, API->write->parse) against reference model M-distinfo, byte-level name generator",
-            "Generated-input search: canonical distinfo files with names over arbitrary non-whitespace bytes (weighted to >= 0x80, C3 A0 / C3 85 / lone E9 / A0 / 85 / FF) must survive parse->write byte for byte; API-assembled documents must write the canonical layout and parse back to the same values.",
+            "Generated-input search: canonical distinfo files with names over arbitrary non-whitespace bytes (weighted to >= 0x80, C3 A0 / C3 85 / lone E9 / A0 / 85 / FF; leading './', doubled / leading / trailing '/', names that are a prefix or suffix of another name, components from the library's own literals) must survive parse->write byte for byte; API-assembled documents must write the canonical layout and parse back to the same values.",
             "Trusts M-distinfo.print/classify (self-checked); names whose basename and whole name classify differently are outside the domain.",
             "pbt"),
     "C11": ("DESIGN.md section 4 / C11",
             "property-based differential testing against the line-level model M-distinfo over interleaved well-formed lines mixed with injected noise lines",
-            "Generated-input search: shuffled checksum/size lines of 1-5 files with varying blanks, leading blanks and algorithm case, mixed with comments, unknown algorithms, bad sizes, garbage and truncated lines; the parsed maps must equal the model's (order, checksums, sizes, patch/distfile split) and contain nothing else.",
+            "Generated-input search: shuffled checksum/size lines of 1-5 files with varying blanks (also runs of a chosen length up to 40), leading blanks, a chosen number (0-400) of trailing tokens and algorithm case, mixed with comments, unknown algorithms, bad sizes, garbage and truncated lines; the parsed maps must equal the model's (order, checksums, sizes, patch/distfile split) and contain nothing else.",
             "Trusts M-distinfo.parse (self-checked); lines that a liberal parser may accept (wrong separator instead of '=') are outside the domain.",
             "pbt"),
     "C12": ("DESIGN.md section 4 / C12",
             "property-based testing with injected corruptions against independent digest implementations (M-hash) on real scratch files",
-            "Generated-input search: for generated file contents and recorded entries (correct or with single-byte / single-digit / length corruptions, decoys sharing a path tail) every verification entry point is compared with the model for all six algorithms, including the payload of the errors.",
+            "Generated-input search: for generated file contents and recorded entries (correct or with single-byte / single-digit / length corruptions, exchanged digits, two cancelling bit changes, the reversed hash; decoys sharing a path tail, recorded names that are textual but not path suffixes of the file name) every verification entry point is compared with the model for all six algorithms, including the payload of the errors.",
             "Trusts M-hash (six algorithms re-implemented from their specifications, test vectors checked at start) and the scratch file system.",
             "pbt"),
     "C13": ("DESIGN.md section 4 / C13",
             "property-based differential testing against M-hash over generated inputs x generated read schedules with injected Interrupted and hard I/O errors; enumeration of name case variants",
-            "Generated-input search over (bytes, read schedule): lengths at block boundaries, patch texts with markers at the buffer edge, 1-byte / short / large reads, Interrupted at any point, one hard error at any read before EOF; digests must equal independent implementations of the six standards, errors must be returned.",
+            "Generated-input search over (bytes, read schedule): lengths at block boundaries, patch texts with markers at the buffer edge, 1-byte / short / large reads, Interrupted at any point (also bursts of a chosen number, 0-300, in a row), one hard error (12 kinds) at any read before EOF; digests must equal independent implementations of the six standards, errors must be returned.",
             "Trusts M-hash (test vectors at start, cross-checked against Python hashlib during development).",
             "pbt"),
     "C14": ("DESIGN.md section 4 / C14",
             "property-based differential testing against a line-level reference model (M-plist) over generated byte documents, shrinking; thorough tier adds a coverage-guided libFuzzer campaign on the same oracle",
-            "Generated-input search: documents of generated lines (one- and two-byte file names, every command with every argument shape, unknown commands, blank lines, raw bytes) are parsed and compared line by line and as a whole entry list with an independent model. Exploration of documents of <= 30 lines.",
+            "Generated-input search: documents of generated lines (one- and two-byte file names, every command with every argument shape, unknown commands, blank lines also of a chosen length up to 700, multi-byte characters cut short, words of the library's own literals, raw bytes) are parsed and compared line by line and as a whole entry list with an independent model. Exploration of documents of usually <= 30 lines (one in fifty 100-400 lines).",
             "Trusts M-plist (written from the statement, self-checked) and the derived Debug rendering of Plist as a faithful view of its private entry list; bytes 0x85/0xA0/VT/FF/CR in white-space-sensitive positions are outside the generated domain.",
             "pbt"),
     "C15": ("DESIGN.md section 4 / C15",
@@ -86,27 +86,27 @@ CHECKS = {
             "pbt"),
     "C16": ("DESIGN.md section 4 / C16",
             "property-based differential testing against M-scan with read schedules and fault injection (content faults; hard I/O error enumerated at every read call)",
-            "Generated-input search over multi-record inputs x chunked readers; every public field of every record is compared with the model; faults (orphan block, bad dependency, bad location, I/O error at each read) must fail the read as a whole.",
+            "Generated-input search over multi-record inputs x chunked readers; every public field of every record is compared with the model; faults (orphan block, bad dependency, bad location, I/O error of six kinds at each read) must fail the read as a whole; unknown keys include identifiers of the library's own literals with values that would matter.",
             "Trusts M-scan; dependency items / locations come from fixed valid and invalid pools (C19 decides their validity).",
             "pbt"),
     "C17": ("DESIGN.md section 4 / C17",
             "robustness fuzzing with proptest: arbitrary bytes, grammar-derived documents and mutations of valid documents at eleven byte-level targets covering every public entry point, panic capture and a watchdog; call-sequence interpreter for Summary; thorough tier adds a coverage-guided libFuzzer campaign on the same oracle",
-            "Generated-input search for panics and hangs: every entry point that takes external text or bytes is driven with arbitrary, grammar-derived and mutated inputs (<= 4 KiB); a panic is caught and reported with message and location, a case exceeding the 20 s watchdog is confirmed in isolation before it counts.",
+            "Generated-input search for panics and hangs: every entry point that takes external text or bytes is driven with arbitrary, grammar-derived and mutated inputs (<= 4 KiB); mutations include a short token repeated a chosen number (0-700) of times and tokens of the library's own literals, stream writes include zero-length writes; a panic is caught and reported with message and location, a case exceeding the 20 s watchdog is confirmed in isolation before it counts.",
             "Inputs above 4 KiB, brace patterns above 1024 expansions (cost exponential by specification) and unreadable directories are not explored; time is a signal only through the watchdog with in-isolation confirmation.",
             "pbt"),
     "C18": ("DESIGN.md section 4 / C18",
             "property-based testing with an inverse (split/rebuild) oracle and metamorphic probes of the revision through the comparison operators",
-            "Generated-input search over package-name strings (many '-', 'nb' in base / repeated / with up to 18 digits); the reported revision is cross-examined through >=, <=, >, < patterns, and the pkg_summary accessors are compared.",
+            "Generated-input search over package-name strings (many '-', 'nb' in base / repeated / with up to 18 digits, parts from the library's own literals, versions of a chosen number - up to 1300 - of components); the reported revision is cross-examined through >=, <=, >, < patterns, and the pkg_summary accessors are compared.",
             "Assumes Pattern comparison is the 'version comparison' of the statement (checked by C01).",
             "pbt"),
     "C19": ("DESIGN.md section 4 / C19",
-            "complete enumeration of a finite segment grammar (plus random strings) against M-path; complete product of patterns x paths x colon layouts for Depend",
+            "complete enumeration of a finite segment grammar (plus random strings and names of chosen lengths) against M-path; complete product of patterns x paths x colon layouts for Depend plus a random Depend stream",
             "Exhaustive over all segment sequences up to length 4 (thorough: 6) with/without leading and trailing '/', compared with an independent acceptance model, accessor/equality/re-parse laws; Depend decided by its definition from Pattern::new and PkgPath::new.",
             "Trusts M-path (self-checked); Depend oracle uses the library's own Pattern::new / PkgPath::new for the halves, as the statement prescribes.",
             "pbt"),
     "C20": ("DESIGN.md section 4 / C20",
             "property-based model comparison over generated directory trees (configurations) on a scratch file system; enumeration of file-name bijection; call sequences on Metadata",
-            "Generated-input search over package database trees (complete / incomplete package directories, stray files, names with several or no '-'); yielded packages, their split and all 14 metadata reads are compared with what was written.",
+            "Generated-input search over package database trees (complete / incomplete package directories, stray files, names with several or no '-' or built from the library's own literals; file contents with CR LF, NUL, BOM; the database directory opened under six spellings of its path); yielded packages, their split and all 14 metadata reads are compared with what was written.",
             "Trusts the scratch file system; unreadable directories are not explored (root).",
             "pbt"),
 }
